@@ -380,6 +380,7 @@ func (m *Machine) resetPath(prefix []int) {
 	m.paramInit = map[string]Value{}
 	m.pathVars = nil
 	m.ufArgs = nil
+	m.splitMemo = nil
 	m.payloads = nil
 }
 
